@@ -1,11 +1,17 @@
-"""C13 (partial) - grouping separators, negative styles, currency symbols, accounting layout and percent only
-decorate: they never drop, add or change a digit, and the sign is shown exactly once."""
+"""C13 - displayed numbers agree numerically with the stored value.
+H13-decimal / H13-currency: grouping separators, negative styles, currency symbols, accounting layout and percent only
+decorate: they never drop, add or change a digit, and the sign is shown exactly once.
+H13-base / H13-base-round / H13-twos: the number-base format read back in its base is the value rounded to an integer
+(sign-and-magnitude or two's complement).  H13-fraction / H13-fraction-n: the fraction read back is the value rounded to
+the displayed denominator.  H13-sci: the scientific form read back is the value rounded to the displayed digits."""
+from decimal import Decimal
+
 import numbers_parser.cell as cellmod
-from numbers_parser.cell import _format_currency, _format_decimal
+from numbers_parser.cell import (_format_base, _format_currency, _format_decimal, _format_fraction, _format_scientific)
 from numbers_parser.constants import DECIMAL_PLACES_AUTO
 from numbers_parser.currencies import CURRENCY_SYMBOLS
 
-from pysym.api import BoolDom, Cases, Harness, IntDom, assume, concretize, cover, nondet_int, nondet_str
+from pysym.api import BoolDom, Cases, DecFloatDom, Harness, IntDom, assume, concretize, cover, nondet_int, nondet_str
 
 
 class Rec:
@@ -151,6 +157,209 @@ def h13_currency(vclass, negative_style, thousands, places, accounting, known, n
         assert minus == 0 and paren == 2
 
 
+# ------------------------------------------------------------------------------------------------ number bases
+def parse_base(text, base):
+    """independent reader: digits 0-9 then A-Z, most significant first"""
+    v = 0
+    for ch in text:
+        o = ord(ch)
+        assert 48 <= o <= 57 or 65 <= o <= 90
+        d = o - 48 if o <= 57 else o - 55
+        assert 0 <= d < base
+        v = v * base + d
+    return v
+
+
+def check_magnitude_text(body, base, places, magnitude):
+    assert len(body) >= 1
+    assert parse_base(body, base) == magnitude
+    assert len(body) >= places                                   # zero padded to the requested number of places
+    if len(body) > places and len(body) > 1:
+        assert body[0] != "0"                                    # and not beyond it
+
+
+def h13_base(n, base, places, minus):
+    """integral values in sign-and-magnitude form: the digits read back in the base give |n| exactly"""
+    assume(base in (2, 8, 16) or minus)                   # Formatting.__post_init__ refuses the other combinations
+    assume(minus or n >= 0)                               # negative values without a minus sign: H13-twos
+    fmt = Rec(base=base, base_places=places, base_use_minus_sign=minus)
+    out = _format_base(float(n), fmt)
+    if n < 0:
+        assert out[0] == "-"
+        check_magnitude_text(out[1:], base, places, -n)
+    else:
+        check_magnitude_text(out, base, places, n)
+
+
+def h13_base_round(n, quarter, base, places):
+    """non-integral values are rounded to the nearest integer (either neighbour on an exact tie)"""
+    value = n + quarter / 4                             # n + 0.25, n + 0.5, n + 0.75  (exact doubles)
+    fmt = Rec(base=base, base_places=places, base_use_minus_sign=True)
+    out = _format_base(value, fmt)
+    assert len(out) >= 1                                  # something is displayed
+    neg = out[0] == "-"
+    body = out[1:] if neg else out
+    assert len(body) >= 1
+    shown = parse_base(body, base)
+    if neg:
+        shown = -shown
+        assert shown != 0
+    # |shown - value| <= 1/2  <=>  |4 shown - (4 n + quarter)| <= 2
+    diff = 4 * shown - (4 * n + quarter)
+    assert -2 <= diff <= 2
+    assert len(body) >= places
+
+
+def h13_twos(n, base):
+    """negative values in bases 2, 8, 16 without a minus sign: two's complement in the smallest width >= 32 bits that
+    holds the value"""
+    assume(n < 0)
+    fmt = Rec(base=base, base_places=0, base_use_minus_sign=False)
+    out = _format_base(float(n), fmt)
+    width = 32
+    while n < -(2 ** (width - 1)):
+        width += 1
+    shown = parse_base(out, base)
+    assert shown == 2 ** width + n
+    if base == 2:
+        assert len(out) == width
+    else:
+        assert out[0] != "0"
+
+
+# ------------------------------------------------------------------------------------------------ fractions
+def parse_fraction(text, denominator):
+    """'W', 'N/D' or 'W N/D' with an optional leading '-'  ->  (negative, numerator over `denominator`, total as
+    a count of 1/denominator units)"""
+    neg = text[0] == "-"
+    body = text[1:] if neg else text
+    whole = 0
+    num = 0
+    if "/" in body:
+        parts = body.split(" ")
+        assert 1 <= len(parts) <= 2
+        if len(parts) == 2:
+            whole = int(parts[0])
+            assert whole > 0
+        frac = parts[-1].split("/")
+        assert len(frac) == 2
+        num = int(frac[0])
+        den = int(frac[1])
+        assert den == denominator
+        assert 0 < num < den
+    else:
+        whole = int(body)
+    assert not (neg and whole == 0 and num == 0)
+    units = whole * denominator + num
+    return -units if neg else units
+
+
+def h13_fraction(m, sixteenths, denominator):
+    """fixed denominators: the fraction shown is the value rounded to the nearest 1/denominator (either neighbour on an
+    exact tie); the whole part and the sign are kept"""
+    value = m + sixteenths / 16                            # every multiple of 1/16 (exact doubles)
+    fmt = Rec(fraction_accuracy=denominator)
+    out = _format_fraction(value, fmt)
+    units = parse_fraction(out, denominator)
+    # |units/denominator - value| <= 1/(2 denominator)   <=>   |16 units - denominator (16 m + sixteenths)| <= 8
+    diff = 16 * units - denominator * (16 * m + sixteenths)
+    assert -8 <= diff <= 8
+
+
+class FractionContract:
+    """Fraction.from_float(v).limit_denominator(M).as_integer_ratio() for values that are multiples of 1/8 and M >= 9:
+    the value itself in lowest terms (stdlib contract: a fraction whose denominator is within the limit is returned
+    unchanged)"""
+
+    def __init__(self, v):
+        self.v = v
+
+    @classmethod
+    def from_float(cls, v):
+        return cls(v)
+
+    def limit_denominator(self, m):
+        assert m >= 9
+        return self
+
+    def as_integer_ratio(self):
+        e = int(self.v * 8)
+        for g in (8, 4, 2):
+            if e % g == 0:
+                return (e // g, 8 // g)
+        return (e, 8)
+
+
+def h13_fraction_n(m, eighths, digits):
+    """'up to N digits' accuracies on values that are multiples of 1/8 (exactly representable with one digit): the
+    fraction shown equals the value"""
+    value = m + eighths / 8
+    fmt = Rec(fraction_accuracy=0x100000000 - digits)
+    out = _format_fraction(value, fmt)
+    neg = out[0] == "-"
+    body = out[1:] if neg else out
+    whole = 0
+    num = 0
+    den = 1
+    if "/" in body:
+        parts = body.split(" ")
+        assert 1 <= len(parts) <= 2
+        if len(parts) == 2:
+            whole = int(parts[0])
+            assert whole > 0
+        frac = parts[-1].split("/")
+        num = int(frac[0])
+        den = int(frac[1])
+        assert 0 < num < den and den < 10 ** digits
+    else:
+        whole = int(body)
+    total8 = (whole * den + num) * 8                        # in units of 1/(8 den)
+    want8 = (8 * m + eighths) * den
+    assert (-total8 if neg else total8) == want8
+
+
+# ------------------------------------------------------------------------------------------------ scientific
+def h13_sci(x, places):
+    """d.ddd...E+XX with exactly `places` decimals; read back it is the value rounded to places + 1 significant digits
+    (either neighbour on an exact decimal tie)"""
+    fmt = Rec(decimal_places=places)
+    out = _format_scientific(x, fmt)
+    neg = out[0] == "-"
+    body = out[1:] if neg else out
+    assert neg == (x < 0)
+    parts = body.split("E")
+    assert len(parts) == 2
+    mant, exp = parts
+    assert exp[0] in "+-" and len(exp) >= 3
+    ex = int(exp[1:])
+    if exp[0] == "-":
+        ex = -ex
+        assert ex != 0
+    if places == 0:
+        assert len(mant) == 1
+        digits = mant
+    else:
+        assert len(mant) == places + 2 and mant[1] == "."
+        digits = mant[0] + mant[2:]
+    assert "1" <= digits[0] <= "9"
+    shown = int(digits)                                      # shown * 10^(ex - places)
+    # the value: D * 10^b with D the integer of its shortest-representation digits (repr/Decimal contract)
+    tup = Decimal(repr(abs(x))).as_tuple()
+    D = 0
+    for d in tup.digits:
+        D = D * 10 + d
+    # compare  shown * 10^(ex - places)  with  D * 10^b:  half a unit in the last shown place
+    a = ex - places
+    b = tup.exponent
+    e10 = b + len(tup.digits) - 1
+    lo = min(a, b)
+    left = shown * 10 ** (a - lo)
+    right = D * 10 ** (b - lo)
+    unit = 10 ** (a - lo)
+    assert -unit <= 2 * (left - right) <= unit
+    assert ex == e10 or ex == e10 + 1
+
+
 STUBS = ["sigfig.round replaced by a contract stub: returns digit strings of nondeterministic content (1 or 4 integer digits quick; 1, 3, 4 or 7 thorough; "
          "0 / 2 (0..2 thorough) or the requested number of decimals) with the argument's sign; grouping by three for spacer=','"]
 OUT = ["that the digits are the value correctly rounded to the displayed precision (sigfig / Decimal internals)",
@@ -167,4 +376,55 @@ HARNESSES = [
             bounds="as H13-decimal x accounting layout on/off x known/unknown currency code",
             stubs=STUBS, outside=OUT, patches=[(cellmod, "sigfig", fake_sigfig)]),
 ]
+BASE_STUBS = ["format archive = attribute bag"]
+FP_NOTE = ("binary64 arithmetic on exactly representable operands (n + k/16, denominator * fraction) is carried out exactly "
+           "(results are dyadic rationals below 2^53); round() = round-half-to-even, int() = truncation")
+HARNESSES += [
+    Harness("H13-base", h13_base,
+            lambda tier: dict(n=IntDom(-(2 ** 40), 2 ** 40), base=Cases([2, 8, 10, 16, 36] if tier == "quick" else list(range(2, 37))),
+                              places=Cases([0, 4] if tier == "quick" else [0, 1, 4, 8]), minus=Cases([True, False])),
+            bounds="every integer |n| <= 2^40; bases {2,8,10,16,36} (quick) / 2..36 (thorough); places {0,4} / {0,1,4,8}; "
+                   "with minus sign, and without it for non-negative values",
+            stubs=BASE_STUBS, loop_bound=400),
+    Harness("H13-base-round", h13_base_round,
+            lambda tier: dict(n=IntDom(-(2 ** 20), 2 ** 20), quarter=Cases([1, 2, 3]), base=Cases([2, 10, 16]), places=Cases([0, 3])),
+            bounds="every n + 1/4, n + 1/2, n + 3/4 with |n| <= 2^20; bases 2, 10, 16; places 0, 3",
+            stubs=BASE_STUBS + [FP_NOTE]),
+    Harness("H13-twos", h13_twos,
+            lambda tier: dict(n=IntDom(-(10 ** 15) + 1, -1), base=Cases([2, 8, 16])),
+            bounds="every negative integer above -10^15; bases 2, 8, 16",
+            stubs=BASE_STUBS + ["math.log2 on positive ints below 2^53: per binade [2^k, 2^(k+1)) the result lies in [k, k+1] and its "
+                                "position relative to k, k + 1/2, k + 1 is given by integer thresholds found by bisection on the "
+                                "running interpreter's math.log2 (monotonicity on integers assumed)"],
+            loop_bound=400),
+    Harness("H13-fraction", h13_fraction,
+            lambda tier: dict(m=IntDom(-(2 ** 20), 2 ** 20), sixteenths=IntDom(-15, 15), denominator=Cases([2, 4, 8, 16, 10, 100])),
+            bounds="every multiple of 1/16 with |whole part| <= 2^20 (both signs); the six fixed denominators",
+            stubs=BASE_STUBS + [FP_NOTE]),
+    Harness("H13-fraction-n", h13_fraction_n,
+            lambda tier: dict(m=IntDom(-(2 ** 20), 2 ** 20), eighths=IntDom(-7, 7), digits=Cases([1, 2, 3])),
+            bounds="every multiple of 1/8 with |whole part| <= 2^20 (both signs); accuracies of up to 1, 2, 3 digits",
+            stubs=BASE_STUBS + [FP_NOTE, "fractions.Fraction.from_float(v).limit_denominator(M).as_integer_ratio() replaced by its "
+                                "contract on multiples of 1/8 with M >= 9: the value in lowest terms"],
+            outside=["values that are not representable with the allowed denominator (continued-fraction search in the stdlib)"],
+            patches=[(cellmod, "Fraction", FractionContract)]),
+]
+
+
+def _sci(n, e):
+    return Harness(f"H13-sci-n{n}-e{e}", h13_sci, lambda tier: dict(x=DecFloatDom(n, e), places=Cases([0, 1, 2, 5, 14] if tier == "quick" else list(range(0, 15)))),
+                   bounds=f"every float whose shortest decimal form has {n} significant digits (symbolic) at decimal exponent {e}, both "
+                          "signs; decimal places {0,1,2,5,14} (quick) / 0..14 (thorough)",
+                   stubs=["sigfig.round(x, sigfigs=15): identity on values with <= 15 significant digits",
+                          "format(x, '.NE'): the correctly rounded decimal of the double = its defining decimal rounded to N+1 digits; on an "
+                          "exact decimal tie both directions are explored",
+                          "repr(float) / Decimal: shortest round-trip digits (contract)"])
+
+
+SCI_Q = [(n, e) for n in (1, 2, 3, 7, 15) for e in (-290, -5, -1, 0, 1, 9, 15, 16, 100)]
+SCI_T = [(n, e) for n in range(1, 16) for e in (-290, -100, -20, -5, -4, -1, 0, 1, 2, 9, 14, 15, 16, 17, 100, 289)]
+HARNESSES += [_sci(n, e) for n, e in SCI_T]
+_NEW = ["H13-base", "H13-base-round", "H13-twos", "H13-fraction", "H13-fraction-n"]
+TIER_HARNESSES = {"quick": ["H13-decimal", "H13-currency"] + _NEW + [f"H13-sci-n{n}-e{e}" for n, e in SCI_Q],
+                  "thorough": ["H13-decimal", "H13-currency"] + _NEW + [f"H13-sci-n{n}-e{e}" for n, e in SCI_T]}
 PROPERTY = "C13"
